@@ -187,7 +187,7 @@ struct Harness {
     u64 seed = 1;
     long long start = 0, count = 1000;
     int worker = 0, nworkers = 1;
-    int hang_seconds = 20;
+    int hang_seconds = 30;
     int max_samples = 6;
     size_t max_distinct = 8u << 20;
     bool verbose = false;
